@@ -388,7 +388,7 @@ fn base_cases(tier: Tier) -> Vec<Case> {
             for i in 0..n {
                 // the restart scripts re-register every timer; they are combined with the plain
                 // and the delayed_exec scenes only
-                if restarting(i) && !matches!(ex, Extras::None | Extras::DelayedExec | Extras::DelayedSend) {
+                if restarting(i) && !matches!(ex, Extras::None | Extras::DelayedExec) {
                     continue;
                 }
                 v.push(make_case(&[i], ex, mb, 0, None));
@@ -396,7 +396,7 @@ fn base_cases(tier: Tier) -> Vec<Case> {
                     if owner(i) && owner(j) {
                         continue;
                     }
-                    if restarting(j) && !matches!(ex, Extras::None | Extras::DelayedExec | Extras::DelayedSend) {
+                    if restarting(j) && (!matches!(ex, Extras::None | Extras::DelayedExec) || (tier == Tier::Quick && restarting(i) && ex != Extras::None)) {
                         continue;
                     }
                     let big = ex != Extras::None;
@@ -458,7 +458,9 @@ fn cases(tier: Tier) -> Vec<Case> {
     // weak handles minted by the actor's own context (weak_address / weak_sender / weak_caller)
     // and handed to another task are weak handles like any other: the observer switches to them
     CTX_MADE.with(|c| c.set(true));
-    v.extend(base_cases(tier).into_iter().filter(|c| sized(&c.desc)).map(|mut c| {
+    // (quick tier: with the plain, the interval and the pending-one-shot scenes)
+    let which = move |d: &str| tier == Tier::Thorough || d.contains("extras=None") || d.contains("extras=Interval ") || d.contains("extras=DelayedSend");
+    v.extend(base_cases(tier).into_iter().filter(|c| sized(&c.desc) && which(&c.desc)).map(|mut c| {
         c.desc = c.desc.replacen("lifetime", "lifetime [the observer's weak handles are made by the actor's context]", 1);
         c
     }));
@@ -480,6 +482,21 @@ fn cases(tier: Tier) -> Vec<Case> {
                     bound: Some(if tier == Tier::Quick { 4 } else { 7 }),
                     scene: Box::new(S { nodes: tree.clone(), cause, bcasts: vec![(1, 601), (1, 603)], mailbox: Mailbox::U, pid: "C05", restart_root: false, slow_stop: None, child_timers: false, late_registration: false }),
                 });
+            }
+        }
+        // a child that is handed to its parent a second time: its sibling, held by nothing but
+        // the parent's child list, lives on
+        {
+            let tree = vec![root, Node { role: 1, parent: Some(0), reg: Reg::AddTwice, outside: false, outside_stops: false }, Node { role: 2, parent: Some(0), reg: Reg::Add, outside: false, outside_stops: false }];
+            for cause in [Cause::StopClient, Cause::LastDrop] {
+                for mb in [Mailbox::U, Mailbox::B(1)] {
+                    v.push(Case {
+                        desc: format!("lifetime [held by the parent's child list only, a sibling is added twice] cause={cause:?} mailbox={}", mb.name()),
+                        exec: ExecCfg { horizon: 30, ..ExecCfg::default() },
+                        bound: Some(if tier == Tier::Quick { 4 } else { 7 }),
+                        scene: Box::new(S { nodes: tree.clone(), cause, bcasts: vec![(1, 601)], mailbox: mb, pid: "C05", restart_root: false, slow_stop: None, child_timers: false, late_registration: false }),
+                    });
+                }
             }
         }
         for reg in [Reg::Add, Reg::Ty(1)] {
